@@ -877,7 +877,7 @@ class Engine(Conc, Executor, Calls):
                     continue
                 nf = len(o.failed)
                 self.record(o, s2, goal, out.info)
-                if len(o.failed) > nf and "pure" in decl.flags:
+                if len(o.failed) > nf and not cl.extra.get("trace"):
                     try:
                         self.attach_pure_replay(o.failed[-1], decl, fn, args, s2, c2, cl, out)
                     except Exception:
@@ -957,22 +957,45 @@ class Engine(Conc, Executor, Calls):
             return
         rt = fn["params"][0]["type"]
         T = self.ir.types[self.ir.under(rt)].get("elem") if isinstance(recv, PtrV) else rt
-        lits = []
-        for f in self.ir.fields(T):
-            v = sv.f.get(f["name"])
-            k = self.ir.kind(f["type"])
-            if is_z3(v) and v.sort() == z3.IntSort():
-                lits.append("%s: %s" % (f["name"], m.eval(v, model_completion=True)))
-            elif is_z3(v) and v.sort() == z3.BoolSort():
-                lits.append("%s: %s" % (f["name"], "true" if z3.is_true(m.eval(v, model_completion=True)) else "false"))
-            # other kinds (strings, nodes, pointers) keep their zero value: the replay is attempted only as far as scalars decide it
+        imports = {}
+        strs = {}
+
+        def lit_fields(val, typ, depth=0):
+            out = []
+            foreign = typ.rpartition(".")[0] != fn["pkg"]
+            for f in self.ir.fields(typ):
+                if foreign and not f["name"][:1].isupper():
+                    continue        # unexported field of another package: cannot be set from the test
+                v = val.f.get(f["name"]) if isinstance(val, StructV) else None
+                if is_z3(v) and v.sort() == z3.IntSort():
+                    out.append("%s: %s" % (f["name"], m.eval(v, model_completion=True)))
+                elif is_z3(v) and v.sort() == z3.BoolSort():
+                    out.append("%s: %s" % (f["name"], "true" if z3.is_true(m.eval(v, model_completion=True)) else "false"))
+                elif is_z3(v) and v.sort() == Str and self.ir.under(f["type"]) == "string":
+                    key = str(m.eval(v, model_completion=True))
+                    out.append('%s: "%s"' % (f["name"], strs.setdefault(key, "s%d" % len(strs))))
+                elif isinstance(v, StructV) and depth < 2 and self.ir.types.get(f["type"], {}).get("kind") == "named":
+                    ft = f["type"]
+                    path, _, tn = ft.rpartition(".")
+                    inner = lit_fields(v, ft, depth + 1)
+                    if inner:
+                        if path == fn["pkg"]:
+                            qual = tn
+                        else:
+                            alias = "p%d" % len(imports) if path not in imports else imports[path]
+                            imports[path] = alias
+                            qual = alias + "." + tn
+                        out.append("%s: %s{%s}" % (f["name"], qual, ", ".join(inner)))
+                # other kinds (nodes, pointers, slices) keep their zero value: the replay goes only as far as scalars decide it
+            return out
+        lits = lit_fields(sv, T)
         demanded = m.eval(to_bool(ctx.eval(a[3])) if fn["results"][0]["type"] == "bool" else to_int(ctx.eval(a[3])), model_completion=True)
         got = out.results[0]
         got = m.eval(to_bool(got) if fn["results"][0]["type"] == "bool" else to_int(got), model_completion=True)
         fmt = lambda x: ("true" if z3.is_true(x) else "false") if z3.is_bool(x) else str(x)
         fail["pure_replay"] = {"type": T, "ptr": isinstance(recv, PtrV), "method": fn["name"].rsplit(".", 1)[-1], "fields": lits,
                                "demanded": fmt(demanded), "predicted": fmt(got), "rtype": fn["results"][0]["type"],
-                               "pkg": fn["pkg"], "file": fn.get("file")}
+                               "pkg": fn["pkg"], "file": fn.get("file"), "imports": imports}
 
     def constructor_obligations(self, decl, fn, rets):
         """`constructor`: the returned object satisfies everything its type declaration lets every other function assume at entry:
